@@ -51,11 +51,11 @@ ST = {0: "Probing", 1: "Allowed", 2: "Blocked", 9: "nil"}
 def describe(t):
     if t and t[0] == 0:
         ops = []
-        for i in range(3, len(t) - 1, 2):
+        for i in range(3, len(t) - 4, 5):
             ops.append("%s->%s" % ({0: "HandleRequest", 1: "Record(fail)", 2: "Record(ok)"}.get(t[i], "?"), ST.get(t[i + 1], t[i + 1])))
         return {"kind": "counter", "N": t[1], "MinSuccesses": t[2], "trace": ops[:60]}
     if t and t[0] == 1:
-        return {"kind": "detector", "readOnly": t[1], "udp(N,min)": t[2:4], "ipv6(N,min)": t[4:6], "raw_ops": t[6:126]}
+        return {"kind": "detector (rw+ro sharing counters)", "udp(N,min)": t[1:3], "ipv6(N,min)": t[3:5], "raw_ops": t[5:165]}
     return {"raw": t[:100]}
 
 
@@ -63,16 +63,16 @@ def nontrivial(line):
     # a case is non-trivial when a Blocked state/answer (2) was observed
     t = line.split()
     if t[0] == b"0":
-        return b"2" in t[4::2]
-    return b"2" in t[6:]
+        return b"2" in t[4::5]
+    return b"2" in t[5:]
 
 
 def key(tag, toks, d):
     # no known findings for C20: identity = kind + configuration + diagnostic + the trace prefix up to the failing step
     idx = d[1] if len(d) > 1 else 0
     if toks[0] == 0:
-        return "C20:counter:N=%d:min=%d:%s" % (toks[1], toks[2], " ".join(map(str, toks[3:3 + 2 * (idx + 1)])))
-    return "C20:detector:%s:%s" % (toks[1:6], d)
+        return "C20:counter:N=%d:min=%d:%s" % (toks[1], toks[2], " ".join(map(str, toks[3:3 + 5 * (idx + 1)])))
+    return "C20:detector:%s:%s" % (toks[1:5], d)
 
 
 def what(tag, toks, d):
